@@ -10,8 +10,24 @@ def repo_fix_commits():
 CHECKS = {}
 NA = {}
 
+import re
+
+def tidy(text):
+    """The level texts grew by prepending 'Also decided: ...' sentences. For the reader: the original statement of what is decided first, then the additions in the
+    order they were made, the ones that are violated on the pinned tree (known findings) last."""
+    m = re.search(r'(?<!Also )(?<!also )\b(Decides|Decided structural|Exhaustive over|Convergence over|Decided are|Static necessary|Decides the|Decides for|'
+                  r'Sample / view / instance semantics|Round-trip equality for all values|Byte-exact reassembly|Decided for SPDP)', text)
+    if not m or m.start() == 0:
+        return text
+    head, base = text[:m.start()], text[m.start():]
+    parts = [x.strip() for x in re.split(r'(?=Also decided)', head) if x.strip()]
+    parts.reverse()
+    viol = [x for x in parts if 'known finding' in x]
+    rest = [x for x in parts if 'known finding' not in x]
+    return ' '.join([base.strip()] + rest + viol)
+
 def claim(pid, technique, text, note, design_ref, category='other'):
-    CHECKS[pid] = dict(technique=technique, text=text, note=note, design_ref=design_ref, category=category)
+    CHECKS[pid] = dict(technique=technique, text=tidy(text), note=note, design_ref=design_ref, category=category)
 
 def na(pid, reason):
     NA[pid] = reason
